@@ -124,9 +124,9 @@ fn main() {
                     let w2 = w.clone();
                     let cfg = config(persist.as_deref());
                     let sseed = mix2(run_seed(seed, "C19-schedule", k), sched.len() as u64);
-                    // shuttle reports a failing schedule by panicking out of run()
-                    let _ = std::panic::take_hook();
-                    std::panic::set_hook(Box::new(|_| {}));
+                    // shuttle reports a failing schedule by panicking out of
+                    // run(); the silent hook stays installed so that a call
+                    // that panics renders the same way as in the reference
                     let r = std::panic::catch_unwind(std::panic::AssertUnwindSafe(|| {
                         if sched == "random" {
                             Runner::new(RandomScheduler::new_from_seed(sseed, iters), cfg).run(move || scenario(&w2))
